@@ -116,9 +116,14 @@ Walk(j, done, bad) ==
                    LET blob == Blobs[BlobAt(after, pr[1])] IN
                    \E k \in DOMAIN blob.imports :
                        /\ Needs(pr[1], blob.imports[k].spec)
-                       /\ LET tgt == Resolve(Front(pr[1]), blob.import_chars[k], FALSE) IN IsErr(tgt) \/ ~IsFileAt(after, tgt)
+                       /\ LET tgt == ResolveX(Front(pr[1]), blob.import_chars[k], FALSE) IN IsErr(tgt) \/ ~IsFileAt(after, tgt)
             THEN <<[step |-> j, tag |-> "C03i_dangling_import"]>> ELSE <<>>
-  IN Walk(j + 1, done2, bad \o b1 \o b2 \o b3 \o b4 \o b5 \o b6)
+      \* "the union of the NEEDED imports": a file never imports from itself
+      b7 == IF \E p \in paths2 : IsFileAt(after, p) /\ Blobs[BlobAt(after, p)].ok /\
+                   LET blob == Blobs[BlobAt(after, p)] IN
+                   \E k \in DOMAIN blob.imports : ResolveX(Front(p), blob.import_chars[k], FALSE) = p
+            THEN <<[step |-> j, tag |-> "C05s_self_import"]>> ELSE <<>>
+  IN Walk(j + 1, done2, bad \o b1 \o b2 \o b3 \o b4 \o b5 \o b6 \o b7)
 
 Result == Walk(1, {}, <<>>)
 
